@@ -396,6 +396,98 @@ def replay_battery_init(body):
     return (1 if bad else 0), ('a battery drops state from its snapshot' if bad else 'every battery serialises exactly its state attributes')
 
 
+def replay_select_dispatch(body):
+    """two descriptors ready in the same select round; the callback of the first one unsubscribes the second (as dropNode / disconnect of
+    another connection does from inside a message handler): poll() must not raise"""
+    import select
+    from pysyncobj.poller import SelectPoller, POLL_EVENT_TYPE
+    bad = []
+    for first in (5, 6):
+        p = SelectPoller()
+        calls = []
+
+        def cb(d, ev, p=p, calls=calls):
+            calls.append((d, ev))
+            p.unsubscribe(5)
+            p.unsubscribe(6)
+        p.subscribe(5, cb, POLL_EVENT_TYPE.READ)
+        p.subscribe(6, cb, POLL_EVENT_TYPE.READ | POLL_EVENT_TYPE.ERROR)
+        real = select.select
+        select.select = lambda r, w, x, t: ([5, 6], [], [6])
+        try:
+            try:
+                p.poll(0.0)
+            except Exception as e:
+                bad.append('%r escapes SelectPoller.poll() after the callbacks %r' % (e, calls))
+        finally:
+            select.select = real
+        if len(calls) != 1:
+            bad.append('%d callbacks ran, expected 1 (the other descriptor was unsubscribed by the first callback)' % len(calls))
+    for b in bad[:4]:
+        out(b)
+    return (1 if bad else 0), ('an exception of the dispatch escapes the event loop' if bad else 'unsubscribed descriptors are skipped')
+
+
+def replay_deaf_server(body):
+    """two real nodes on loopback; the listening node's first accept() fails with ECONNABORTED (the client gave up); afterwards the network is
+    fine and the two nodes must get connected within 10 s of ticking"""
+    import errno
+    import socket
+    import time
+    from pysyncobj import SyncObj, SyncObjConf
+
+    def free_port():
+        s = socket.socket()
+        s.bind(('127.0.0.1', 0))
+        p = s.getsockname()[1]
+        s.close()
+        return p
+
+    class FlakyListener(object):
+        def __init__(self, real):
+            self.real, self.failed = real, False
+
+        def accept(self):
+            if not self.failed:
+                self.failed = True
+                try:
+                    c, _ = self.real.accept()
+                    c.close()
+                except socket.error:
+                    pass
+                raise socket.error(errno.ECONNABORTED, 'Software caused connection abort')
+            return self.real.accept()
+
+        def __getattr__(self, n):
+            return getattr(self.real, n)
+    pa, pb = sorted([free_port(), free_port()])
+    a_addr, b_addr = '127.0.0.1:%d' % pa, '127.0.0.1:%d' % pb
+    conf = lambda: SyncObjConf(autoTick=False, connectionRetryTime=0.5, connectionTimeout=3.0)
+    a = SyncObj(a_addr, [b_addr], conf=conf())
+    srv = a._SyncObj__transport._server
+    flaky = FlakyListener(srv._TcpServer__socket)
+    srv._TcpServer__socket = flaky
+    b = SyncObj(b_addr, [a_addr], conf=conf())
+    deadline = time.time() + 10.0
+    ok = False
+    while time.time() < deadline:
+        a.doTick(0.02)
+        b.doTick(0.02)
+        if flaky.failed and a.isNodeConnected(b.selfNode) and b.isNodeConnected(a.selfNode):
+            ok = True
+            break
+    out('accept failed once: %s; the two nodes connected afterwards: %s' % (flaky.failed, ok))
+    a.destroy()
+    b.destroy()
+    for _ in range(5):
+        try:
+            a.doTick(0.01)
+            b.doTick(0.01)
+        except Exception:
+            pass
+    return (0 if ok else 1), ('after one failed accept the node never accepts a connection again' if not ok else 'the server was bound again')
+
+
 def replay_meta(body):
     """kill-point enumeration on the real MetaStorer.storeMeta: the k-th primitive file operation (open / write / flush / close /
     os.remove / os.rename / shutil.move ...) is the last one to happen before the process dies; the .meta file is then read back"""
@@ -528,6 +620,8 @@ REPLAYERS = {
     'ResizableFile.write': replay_journal, 'FileJournal.add': replay_journal, 'FileJournal.reopen': replay_journal,
     'FileJournal.deleteEntriesFrom': replay_journal, 'FileJournal.clear': replay_journal,
     'MetaStorer.storeMeta': replay_meta,
+    'transport.maybeBind': replay_deaf_server,
+    'poller.select.dispatch': replay_select_dispatch,
     'bat.init-state-serialized': replay_battery_init,
     'ResizableFile.open': replay_journal_creation,
 }
